@@ -682,7 +682,7 @@ func init() {
 	core.Register(&core.Check{
 		ID:    "C20",
 		Level: "model_checking",
-		Rule: "explicit-state search over the real trie: (1) every insertion sequence without repetition up to depth d over all words of length 1..3 over a 2-3 byte alphabet (incl. bytes 0x00/0xFF in thorough); (2) BFS with merging (key = word set + observable node structure) of the full reachable state space including re-insertion; (3) every sequence <=3 of top-level definitions through repl.EvalOne with a registered trie. On every state: Contains for every universe word, PrefixAll for every prefix (exact set, byte order, once each, longest-common-prefix length) and the repl completion callback, against a sorted Go string set. Non-trivial = at least one word inserted.",
+		Rule: "explicit-state search over the real trie: (1) every insertion sequence without repetition up to depth d over all words of length 1..3 over a 2-3 byte alphabet (incl. bytes 0x00/0xFF in thorough); (2) BFS with merging (key = word set + observable node structure) of the full reachable state space including re-insertion; (3) every sequence <=3 of top-level definitions through repl.EvalOne with a registered trie. On every state: Contains for every universe word, PrefixAll for every prefix (exact set, byte order, once each, longest-common-prefix length) and the repl completion callback, against a sorted Go string set. Non-trivial = at least one word inserted. Lists returned by earlier prefix queries are re-checked after every later operation; the completion callback is also given lines with blanks around the prefix and the cursor before the end of the line.",
 		Assume:   []string{"state key includes the observable structure, so merged states have equal futures (Insert only reads children/valid/leaf)"},
 		QuickCap: 100 * time.Second, ThoroughCap: 15 * time.Minute,
 		Run: runC20,
